@@ -436,6 +436,29 @@ def call_method(I, b: Bound, args, kwargs, e, fr):
     if isinstance(recv, Const) and isinstance(recv.v, str):
         if name == "join" and args:
             return I.derive("strjoin", recv, args[0])
+        if name == "format" and not kwargs and "{" in recv.v:
+            # "...{}...".format(a, b): the same string as the f-string with these pieces (auto-numbered plain fields only)
+            import string
+            parts, k, ok = [], 0, True
+            try:
+                for (lit, field, spec, conv) in string.Formatter().parse(recv.v):
+                    if lit:
+                        parts.append(Const(lit))
+                    if field is None:
+                        continue
+                    if spec or conv or not (field == "" or field.isdigit()):
+                        ok = False
+                        break
+                    idx = k if field == "" else int(field)
+                    k += 1
+                    if idx >= len(args):
+                        ok = False
+                        break
+                    parts.append(args[idx])
+            except ValueError:
+                ok = False
+            if ok:
+                return I.derive("fstr", *parts)
         if all(isinstance(a, Const) for a in args) and name in STR_LIKE_METHODS:
             try:
                 r = getattr(recv.v, name)(*[a.v for a in args])
